@@ -69,4 +69,42 @@ PROPS["C01"] = dict(
     parts=[dict(engine="e1", harness="c01_foreach")],
 )
 
+E2_ASSUME = [
+    "one OS thread per case (no schedule exploration in this engine)",
+    "ASan-instrumented build with assertions enabled; a crash / ASan report "
+    "is a violation for the history or input that was running",
+    "bounds as stated per cell (depth, alphabet, input size)",
+]
+
+PROPS["C13"] = dict(
+    level="exploration",
+    engine_name="seqx",
+    rule="bounded-exhaustive input enumeration on the real routines: "
+         "block_range (int / random-access / forward iterators) and "
+         "split_range for every size<=64 x parts<=9 x base; 64-bit extreme "
+         "sizes; divideNodesBinarySearch for EVERY non-decreasing prefix sum "
+         "of length<=5 (quick) / 6 (thorough) with increments<=3 x 10 "
+         "node/edge weightings x total<=5 x every scale-factor vector with "
+         "entries<=3 (total<=3) x node offsets 0..2; "
+         "determineUnitRangesFromPrefixSum whole and clipped to every "
+         "[begin,end) x units<=6 x nodeAlpha in {0,1,3}. Oracle: pieces "
+         "contiguous, ordered, pairwise disjoint, union = input; edge ranges "
+         "are exactly the edges of the node piece. Non-trivial = input with "
+         ">=2 elements and >=2 parts",
+    bound_note="exhaustive to the stated sizes; not a proof for all 64-bit "
+               "sizes (that obligation belongs to another technique family)",
+    assumptions=E2_ASSUME,
+    deadline=dict(quick=120, thorough=1200),
+    technique="bounded-exhaustive enumeration of all inputs below a size on "
+              "the real code (seqx), against an interval-cover oracle",
+    level_text="every input below the stated sizes is run through the real "
+               "division routines and checked for exact cover; no sampling",
+    level_note="exhaustive only below the stated sizes plus listed 64-bit "
+               "boundary values; graph-object based variants "
+               "(determineUnitRangesFromGraph, LC_CSR_Graph::divideByNode) "
+               "are exercised through C11's thread-range checks",
+    design_ref="DESIGN.md 3, 7/C13",
+    parts=[dict(engine="e2", harness="c13_division")],
+)
+
 NOT_APPLICABLE = {}
